@@ -70,6 +70,13 @@ def pck_of(shard):
     return (shard // 2) % 2 == 0
 
 
+def encoding_of(shard):
+    """The two Chebyshev encodings an SPK file can use for the same trajectory: the shipped kernel is all type 2
+    (position polynomials, velocity by differentiation); one shard in four is given a type-3 re-encoding (position
+    and velocity polynomials) of the same kernel, one in four a file mixing both."""
+    return ["type2", "type3", "mixed", "type2"][(shard // 4) % 4]
+
+
 def setup_jpl(shard):
     from .. import env
 
@@ -77,7 +84,26 @@ def setup_jpl(shard):
     env.jpl(with_pck=pck_of(shard))
     from beyond.env import jpl
 
+    enc = encoding_of(shard)
+    tmp = None
+    if enc != "type2":
+        import tempfile
+        from beyond.config import config
+
+        tmp = tempfile.mkdtemp(prefix="vf-spk-")
+        src = os.path.join(env.repo(), "tests", "data", "jpl", "de403_2000-2020.bsp")
+        dst = od.write_type3(src, os.path.join(tmp, "de403_2000-2020_t3.bsp"),
+                             (lambda t: True) if enc == "type3" else (lambda t: t % 2 == 1))
+        files = [dst if f == src else f for f in config.get("env", "jpl", "files")]
+        assert dst in files
+        config.set("env", "jpl", "files", files)
     jpl.create_frames()
+    if tmp is not None:
+        # the library has opened the file by now (jplephem keeps the descriptor): nothing is left behind on disk
+        assert jpl.Bsp().spk and {s.data_type for s in jpl.Bsp().segments} == ({3} if enc == "type3" else {2, 3})
+        import shutil
+
+        shutil.rmtree(tmp, ignore_errors=True)
 
 
 @st.composite
@@ -435,7 +461,7 @@ def check_jpl_pairs(case):
             raise Violation("jpl-antisymmetry", f"{a}->{b} is not the opposite of {b}->{a} at {dt}")
     return dict(nt=True,
                 cls=date_classes(case) + [f"eop:{eop_of(case['shard'])}", f"pck:{'on' if with_pck else 'off'}",
-                                          f"label:{case['label']}", f"edge:{case.get('edge', 'none')}",
+                                          f"spk:{encoding_of(case['shard'])}", f"label:{case['label']}", f"edge:{case.get('edge', 'none')}",
                                           f"date-clone:{case.get('clone', 'none')}"] + sorted("by:" + w for w in spellings),
                 ratio=worst)
 
